@@ -174,7 +174,10 @@ class PermuteGround(_Hash):
     skip_facets = "CT"        # satisfaction and trace shape are carried by the per-round contract (Permute); here: values only
 
     def configs(self, tier):
-        return [dict(params=k, input=inp) for k in ("zkinterface", "zkifbellman", "zkifbulletproofs") for inp in ("01234", "big")]
+        # warm="g0": the process's FIRST permutation ran inside a region whose guard is false (a hash in a branch not
+        # taken); nothing it computed there may stick to later, unguarded permutations
+        return [dict(params=k, input=inp) for k in ("zkinterface", "zkifbellman", "zkifbulletproofs") for inp in ("01234", "big")] + \
+               [dict(params="zkinterface", input="01234", warm="g0")]
 
     def world_setup(self, w):
         from .backend_c import _stub_world
@@ -196,6 +199,15 @@ class PermuteGround(_Hash):
         self._bound_ok = (ph.round_constants is K["round_constants"] and ph.matrix is K["matrix"])
         vals = [0, 1, 2, 3, 4] if cfg["input"] == "01234" else [p - 1, 2 ** 200 + 7, 0, -5, 12345678901234567890]
         self._vals = vals
+        if cfg.get("warm") == "g0":
+            rt = c.rt
+            before = (rt.guard, rt._ignore_errors, rt.LinComb.ONE)
+            apply_mode(c, "g0")
+            try:
+                ph.permute([rt.PrivVal(v + 1) for v in vals])
+            finally:
+                rt.guard, rt._ignore_errors, rt.LinComb.ONE = before
+                c.mode = "plain"
         return ph.permute, ([c.rt.PrivVal(v) for v in vals],), {}
 
     def post(self, c, r, state):
